@@ -141,13 +141,25 @@ pub fn constructive(r: &mut crate::util::Rng, obs: &mut Obs) -> (Vec<u8>, Vec<Vi
 pub fn check_adts(protection_absent: bool, delta: i32, lo: u32, hi: u32, obs: &mut Obs) -> Vec<Violation> {
     use crate::exec::{run, ExecOpts};
     let mut out = Vec::new();
+    let (h, frames) = adts_history(protection_absent, delta, lo, hi);
+    let hdr = if protection_absent { 7usize } else { 9 };
+    let (ex, sink) = run(&h, &ExecOpts::default());
+    if ex.any_panic() {
+        obs.inconclusive += 1;
+        return out;
+    }
+    adts_judge(&h, &ex, &sink.bytes(), &frames, hdr, protection_absent, obs, &mut out);
+    out
+}
+
+/// The history used by the ADTS sweep: one key frame, then one audio frame per declared length.
+pub fn adts_history(protection_absent: bool, delta: i32, lo: u32, hi: u32) -> (History, Vec<(Vec<u8>, usize)>) {
     let mut r = crate::util::Rng::new(crate::util::mix(lo as u64, hi as u64 * 4 + protection_absent as u64));
     let mut cfg = Cfg::basic(H264);
     cfg.audio = Some(AudioCfg { kind: 1, rate: 48_000, channels: 2 });
     cfg.fast_start = Some(lo % 2 == 0);
     let key = crate::gen::frames::h264_frame(&mut r, crate::gen::frames::FrameKind::KeyCfg, 16, false);
     let mut ops = vec![Op::wv(0.0, key, true)];
-    let hdr = if protection_absent { 7usize } else { 9 };
     let mut frames: Vec<(Vec<u8>, usize)> = Vec::new();
     for (j, flen) in (lo..hi).enumerate() {
         let buf_len = (flen as i64 + delta as i64).max(0) as usize;
@@ -161,18 +173,16 @@ pub fn check_adts(protection_absent: bool, delta: i32, lo: u32, hi: u32, obs: &m
         frames.push((f, flen as usize));
     }
     ops.push(Op::Finish(FinishKind::InPlaceStats));
-    let h = History { cfg, ops };
-    let (ex, sink) = run(&h, &ExecOpts::default());
-    if ex.any_panic() {
-        obs.inconclusive += 1;
-        return out;
-    }
-    let bytes = sink.bytes();
-    let tree = bmff::parse_tree(&bytes);
-    let movie = bmff::parse_movie(&bytes, &tree);
+    (History { cfg, ops }, frames)
+}
+
+#[allow(clippy::too_many_arguments)]
+fn adts_judge(_h: &History, ex: &crate::exec::Exec, bytes: &[u8], frames: &[(Vec<u8>, usize)], hdr: usize, protection_absent: bool, obs: &mut Obs, out: &mut Vec<Violation>) {
+    let tree = bmff::parse_tree(bytes);
+    let movie = bmff::parse_movie(bytes, &tree);
     let Some(at) = movie.tracks.iter().find(|t| &t.handler == b"soun") else {
         out.push(v("adts|no-audio-track".into(), "finished file has no audio track".into()));
-        return out;
+        return;
     };
     let accepted: Vec<&(Vec<u8>, usize)> = frames.iter().zip(ex.results[1..].iter()).filter(|(_, r)| r.is_ok()).map(|(f, _)| f).collect();
     obs.count("adts_frames_submitted", frames.len() as u64);
@@ -180,7 +190,7 @@ pub fn check_adts(protection_absent: bool, delta: i32, lo: u32, hi: u32, obs: &m
     obs.evaluations += frames.len() as u64;
     if at.samples.len() != accepted.len() {
         out.push(v("adts|sample-count".into(), format!("{} accepted ADTS frames but {} audio samples", accepted.len(), at.samples.len())));
-        return out;
+        return;
     }
     for (s, (f, flen)) in at.samples.iter().zip(accepted.iter()) {
         let a = s.offset as usize;
@@ -195,5 +205,4 @@ pub fn check_adts(protection_absent: bool, delta: i32, lo: u32, hi: u32, obs: &m
         }
         obs.nontrivial(crate::util::fnv(f));
     }
-    out
 }
